@@ -13,7 +13,8 @@ WRAPS = ["coap_ticks", "coap_socket_send", "coap_socket_recv", "coap_check_notif
 # (number 15 as two little-endian bytes 0f 00 between the values)
 QUERIES = ["-", "61", "62", "61+62", "62+61", "6161", "610f0062", "610f00+62"]
 TOKENS = ["a1", "a2", "b1b2", "c1c2c3c4", "d1d2d3d4d5d6d7d8", "-", "a1a1"]
-EXTRAS = ["", "", "", "4=e1", "4=e2", "17=28", "17=00", "60=10", "60=20", "4=e1,60=11", "12=_"]
+EXTRAS = ["", "", "", "4=e1", "4=e2", "17=28", "17=00", "60=10", "60=20", "4=e1,60=11", "12=_",
+          "23=06", "23=02"]
 
 
 # ------------------------------------------------------------------ generator
@@ -361,6 +362,26 @@ def canon_model(s):
     """the model driver prints the send queue in sending order, the implementation keeps it in
     order of expiry: compare as sets"""
     return re.sub(r"q=(\S+)", lambda m: "q=" + ",".join(sorted(m.group(1).split(","))), s)
+
+
+def strip_internal(s):
+    """drop what the property cannot observe from a state dump: the dirty / partiallydirty /
+    observe_pending flags and fail_cnt (kept: subscribers in list order with non_cnt, the Observe
+    counter, the send queue, the reference counts)"""
+    head, sep, dump = s.partition(" | ")
+    out = []
+    for tk in dump.split():
+        m = re.match(r"(R\d+=\d+)/\d/\d:(.*)$", tk)
+        if m:
+            subs = m.group(2)
+            if subs != "-":
+                subs = ",".join(".".join(it.split(".")[:3]) for it in subs.split(","))
+            out.append(m.group(1) + ":" + subs)
+        elif re.match(r"P\d$", tk):
+            continue
+        else:
+            out.append(tk)
+    return head + sep + " ".join(out)
 
 
 def impl_canonical(t):
